@@ -34,7 +34,7 @@ EV_FIELDS = ("o", "n", "x", "y", "x3", "x4")
 # TLC: design checks, must-fail instances, program generation
 
 def model_check(ctx, module, cfg, actions, label, timeout=900):
-    res = vp.tlc("api", module, cfg=cfg + ".cfg", workers=8, timeout=timeout)
+    res = vp.tlc("api", module, cfg=cfg + ".cfg", workers=4, timeout=timeout)
     vp.record_tlc(ctx, label, res)
     vp.tlc_require_ok(res, f"{module} / {cfg}")
     vp.check_action_coverage(res, actions, f"{module} / {cfg}")
@@ -309,12 +309,11 @@ def c12_blackboard(ctx):
     # 1. the specification itself
     model_check(ctx, "MC_Blackboard", "MC_Blackboard" if quick else "MC_Blackboard_deep", BB_ACTIONS,
                 "Blackboard.tla [one writer / one handle per key / reads / limits]")
-    faults = sorted(BB_FAULTS)
-    must_fail(ctx, "MC_Blackboard", "MF_Blackboard_",
-              BB_FAULTS, [["second_handle", "second_writer", "stale_read"][seed % 3]] if quick else faults)
+    if not quick:       # vacuity guard of the invariants: planted defects must be refuted
+        must_fail(ctx, "MC_Blackboard", "MF_Blackboard_", BB_FAULTS, sorted(BB_FAULTS))
     # 2. programs: TLC random walks over the documented behaviour + directed scripts
     cfgs = [(rng.randint(1, 3), rng.choice([1, 1, 2, 3]), rng.choice([1, 2, 3])) for _ in range(3)] + [(2, 1, 1)]
-    univ = ("[W |-> {1, 2}, R |-> 1..(c.reff + 1), N |-> 1..(IF c.neff > 1 THEN 2 ELSE 1), K |-> 1..(c.nkeys + 1), "
+    univ = ("[W |-> {1, 2}, R |-> 1..(c.reff + 1), N |-> 1..(IF c.neff > 1 THEN 2 ELSE 1), K |-> 1..c.nkeys, "
             "Q |-> {0}, maxv |-> 1000]")
     progs = simulate(ctx, "Blackboard", "SIMBB", BB_CONSTS, tla_set(bb_cfg_tla(*c) for c in cfgs), univ,
                      num=12 if quick else 150, depth=70 if quick else 120, seed=seed)
